@@ -482,7 +482,43 @@ func runCase(cs caseSpec) (f *finding, spare bool, negErr int64) {
 	if err != nil {
 		return report("reload-error@after-reload:"+class, map[string]interface{}{"error": err.Error()}), spare, negErr
 	}
-	if f := read("after-reload", acc2.(state.UserAccountHandler)); f != nil {
+	ua2 := acc2.(state.UserAccountHandler)
+	if f := read("after-reload", ua2); f != nil {
+		return f, spare, negErr
+	}
+	// second round on the reloaded account: every key now has a saved state. (a) overwrite each
+	// key with a fresh value, (b) delete each key; after each step the keys are read before
+	// the save (the pending write must win over the saved value), after it, and at the end
+	// after commit and reload. Added after the independent seed C08-2.
+	for _, step := range []string{"overwrite", "delete"} {
+		for k := range keyBytes {
+			var v []byte
+			if step == "overwrite" {
+				v = []byte(fmt.Sprintf("round2-%d-%s", k, keyNames[k]))
+			}
+			if err := ua2.DataTrieTracker().SaveKeyValue(append([]byte{}, keyBytes[k]...), append([]byte{}, v...)); err != nil {
+				return report("SaveKeyValue-error@round2-"+step, map[string]interface{}{"error": err.Error()}), spare, negErr
+			}
+			expected[k] = v
+		}
+		if f := read("round2-"+step+"-of-saved-keys:before-save", ua2); f != nil {
+			return f, spare, negErr
+		}
+		if err := e.adb.SaveAccount(ua2); err != nil {
+			return report("SaveAccount-error@round2-"+step, map[string]interface{}{"error": err.Error()}), spare, negErr
+		}
+		if f := read("round2-"+step+"-of-saved-keys:after-save", ua2); f != nil {
+			return f, spare, negErr
+		}
+	}
+	if _, err := e.adb.Commit(); err != nil {
+		return report("Commit-error@round2", map[string]interface{}{"error": err.Error()}), spare, negErr
+	}
+	acc3, err := e.adb.LoadAccount(append([]byte{}, addrS...))
+	if err != nil {
+		return report("reload-error@round2:"+class, map[string]interface{}{"error": err.Error()}), spare, negErr
+	}
+	if f := read("round2:after-reload", acc3.(state.UserAccountHandler)); f != nil {
 		return f, spare, negErr
 	}
 	return nil, spare, negErr
@@ -509,7 +545,7 @@ func main() {
 				family{name: "small", n: 4, opts: small, bases: []int{2}})
 			c.Deadline = time.Now().Add(14 * time.Minute)
 		}
-		c.Rule = "non-trivial = a case in which the caller passes at least one key/value slice carved from its backing array with spare capacity >= what append needs (so that append(value, ...)/append(key, ...) would write into, and return a slice of, the caller's array); key = the sequence of layouts + scribble times"
+		c.Rule = "non-trivial = a case in which the caller passes at least one key/value slice carved from its backing array with spare capacity >= what append needs (so that append(value, ...)/append(key, ...) would write into, and return a slice of, the caller's array); key = the sequence of layouts + scribble times. Every case ends with a second round on the reloaded account: overwrite every key with a fresh value, then delete every key, reading all keys before and after each save and after commit + reload (pending writes over saved values)"
 		c.Assumptions = []string{
 			"one account (32-byte address), keys {a1, b1b2b3}, values of length 0 (delete), 1, 2, 3 and 2+len(key)+32 (tail equals key||address), distinct content per write",
 			"the caller owns one 256-byte backing array; carved slices start at base+16*slot (+ length of the first slice + gap for the second); 'scribble' overwrites the whole array and every freshly allocated slice passed so far with 0xEE; a later carved write re-fills its region",
